@@ -121,8 +121,8 @@ func init() {
 			if len(v.Msg) <= len(p) || v.Msg[:len(p)] != p || (v.Msg[len(p)] != ' ' && v.Msg[len(p)] != ':') {
 				continue
 			}
-			st := x.LastStateBefore(p, a.SeqBefore)
-			if st != "" && st != "Pending" && st != "Terminating" {
+			sp := h.Scenario.Spec(p)
+			if sp == nil || !oracle.PendingInstanceAt(h.Events, p, a.SeqBefore, !sp.Disabled && !sp.Foreground) {
 				continue
 			}
 			live := false
